@@ -111,8 +111,10 @@ theorem step_inv (s : State) (g : Ghost) (op : Op) (h : Inv s g) : Inv (step s o
       simp only [r1, r2, List.count_append]
       omega
   | setConnected c => simpa [step, stepWith, gstep] using ha
-  | addSub id => simpa [step, stepWith, gstep] using ha
+  | addSub id e => simpa [step, stepWith, gstep] using ha
   | delSub id => simpa [step, stepWith, gstep] using ha
+  | setPub id e => simpa [step, stepWith, gstep] using ha
+  | setItem id b => simpa [step, stepWith, gstep] using ha
 
 /-- **conservation** over every history of publish starts, responses, failures, connection and
 subscription changes. -/
@@ -178,6 +180,20 @@ theorem flush (s : State) (g : Ghost) (h : Inv s g) (hq : s.flights = []) (hc : 
     beq_self_eq_true, List.count_append, t1]
   simp only [hq, inflight, List.count_nil] at ha
   omega
+
+/-- **every data-carrying notification is queued for acknowledgement, whatever the client knows about
+its subscription** — existing or not (never created, already deleted), publishing enabled or disabled,
+with or without monitored items: the pending list after a response does not depend on `subs`. -/
+theorem ack_independent_of_subscriptions (s : State) (subs' : List SubInfo) (id sub seq : Nat) (more ka : Bool) :
+    (step { s with subs := subs' } (.complete id sub seq more ka)).2.pending =
+      (step s (.complete id sub seq more ka)).2.pending := by
+  simp only [step, stepWith, completeWith]
+  cases findFlight s.flights id <;> rfl
+
+theorem data_notification_always_acked (s : State) (id sub seq : Nat) (more : Bool) (f : Flight)
+    (h : findFlight s.flights id = some f) :
+    (sub, seq) ∈ (step s (.complete id sub seq more false)).2.pending := by
+  simp [step, stepWith, completeWith, h]
 
 /-! ### The subscription event loop -/
 
